@@ -39,6 +39,7 @@ impl Kn {
             "poly2.5" => Kn::Poly(2.5, 0.5, 1.0),
             "poly0.5" => Kn::Poly(0.5, 1.0, 2.0),
             "sigmoid" => Kn::Sigmoid(0.1, 0.0),
+            "sigmoid2" => Kn::Sigmoid(0.7, 0.5),
             _ => panic!("unknown kernel {}", s),
         }
     }
@@ -237,13 +238,33 @@ fn svr_case(job: &Job) {
     let kname = job.s("kernel").to_string();
     let kn = Kn::from_name(&kname);
     let (c, tol, eps) = (job.f("C"), job.f("tol"), job.f("eps"));
-    let pts: Vec<Vec<f64>> = if let Some(fixed) = job.params["points"].as_array() {
+    let pts: Vec<Vec<f64>> = if job.b("neardup") {
+        // 7 ordinary rows at magnitudes of hundreds plus a NEAR-duplicate of one of them (one coordinate
+        // moved by a relative 2^-d): the pair's curvature K11 + K22 - 2 K12 ~ 1e-13 is below the rounding
+        // of the kernel values (~1e-11), so its computed value can come out slightly negative. Every
+        // (twin row, coordinate, d) is enumerated; the trainer must terminate with a KKT point.
+        let base: Vec<Vec<f64>> = vec![vec![101.5, 398.2], vec![120.75, 405.9], vec![137.25, 412.6], vec![150.1, 420.3], vec![163.8, 431.7], vec![181.4, 440.2], vec![195.9, 452.8]];
+        let r = job.u("row");
+        let c = mc::choose(2);
+        let d = 28 + mc::choose(8) as i32;
+        let mut twin = base[r].clone();
+        twin[c] *= 1.0 + (2.0f64).powi(-d) * [1.0, 1.3][mc::choose(2)];
+        let dot = |u: &[f64], v: &[f64]| u.iter().zip(v).map(|(p, q)| p * q).sum::<f64>();
+        if dot(&base[r], &base[r]) + dot(&twin, &twin) - 2.0 * dot(&base[r], &twin) < 0.0 {
+            mc::count("svr_neardup_rounded_curvature_negative");
+        }
+        let mut pts = base;
+        pts.insert(5, twin);
+        pts
+    } else if let Some(fixed) = job.params["points"].as_array() {
         fixed.iter().map(|p| p.as_array().unwrap().iter().map(jf).collect()).collect()
     } else {
         (0..n).map(|_| vec![mc::choose(3) as f64]).collect()
     };
     let yal = [-1.0, 0.0, 2.0];
-    let y: Vec<f64> = if let Some(fixed) = job.params["targets"].as_array() { fixed.iter().map(jf).collect() } else { (0..n).map(|_| yal[mc::choose(3)]).collect() };
+    let y: Vec<f64> = if job.b("neardup") {
+        vec![1.0, 1.4, 1.9, 2.3, 2.8, 3.1, 3.3, 3.9]
+    } else if let Some(fixed) = job.params["targets"].as_array() { fixed.iter().map(jf).collect() } else { (0..n).map(|_| yal[mc::choose(3)]).collect() };
     let x: DM = dm(&pts);
     let r = mc::guard(|| match kn {
         Kn::Linear => SVR::fit(&x, &y, SVRParameters::default().with_eps(eps).with_c(c).with_tol(tol)).map(|m| svr_obs(&m, &pts)),
@@ -383,7 +404,7 @@ fn kernel_pair_t<T: RealNumber>(a64: &[f64], b64: &[f64], tag: &str) {
     let eps = T::epsilon().to_f64().unwrap();
     let len = a.len() as f64;
     let t = |v: f64| T::from_f64(v).unwrap();
-    for kname in ["linear", "rbf", "poly", "poly3", "poly2.5", "poly0.5", "sigmoid"] {
+    for kname in ["linear", "rbf", "poly", "poly3", "poly2.5", "poly0.5", "sigmoid", "sigmoid2"] {
         let kn = Kn::from_name(kname);
         let lib = |u: &Vec<T>, v: &Vec<T>| -> Result<f64, mc::PanicInfo> {
             mc::guard(|| {
@@ -439,7 +460,16 @@ fn kernel_case(job: &Job) {
     let (off, h) = PLACEMENTS[mc::choose(PLACEMENTS.len())];
     let wide = mc::choose(2) == 0;
     let a: Vec<f64> = (0..len).map(|_| off + h * sigma[mc::choose(alpha)]).collect();
-    let b: Vec<f64> = (0..len).map(|_| off + h * sigma[mc::choose(alpha)]).collect();
+    let mut b: Vec<f64> = (0..len).map(|_| off + h * sigma[mc::choose(alpha)]).collect();
+    // mirrored partner: b -> -b, so that <a,b> is large and NEGATIVE at the off-centre placements
+    // (saturated negative side of tanh, negative bases of the polynomial kernel)
+    let mirrored = mc::choose(2) == 1;
+    if mirrored {
+        for v in b.iter_mut() {
+            *v = -*v;
+        }
+        mc::count("kernel_pairs_mirrored");
+    }
     if wide {
         kernel_pair_t::<f64>(&a, &b, "");
     } else {
@@ -692,6 +722,20 @@ impl Harness for C10 {
                 jobs.push(Job::new(format!("svr-structured-stiff-n{}-d{}-s{}-v{}-linear-C{}", n, dim, scale, variant, c), json!({"kind": "svr", "n": n, "kernel": "linear", "eps": 0.1, "C": c, "tol": 1e-3, "points": pts, "targets": y, "stiff": true})));
             }
         }
+        // SVR with NEAR-duplicate rows at magnitudes of hundreds (choice-driven family, see svr_case)
+        for k in ["linear", "poly"] {
+            for c in [1.0, 10.0] {
+                for row in 0..7usize {
+                    // (C = 10, twin of row 5) contains the inputs on which the unchanged library never
+                    // terminates (known finding, see known_findings.txt): those two jobs run in the
+                    // thorough tier only, where the 20 s per-case deadline does not hurt
+                    if !t && c == 10.0 && row == 5 {
+                        continue;
+                    }
+                    jobs.push(Job::new(format!("svr-structured-neardup-{}-C{}-r{}", k, c, row), json!({"kind": "svr", "n": 8, "kernel": k, "eps": 0.1, "C": c, "tol": 1e-3, "neardup": true, "row": row, "stiff": true})));
+                }
+            }
+        }
         // cheap and diverse jobs first, the large all-order SVC families last
         let rank = |name: &str| -> usize {
             let order = ["kernel", "gram", "svr-n", "svr-structured", "svc-big", "svc-2d", "svc-1d-n4-e1", "svc-1d-n4-e2", "svc-1d-n5"];
@@ -709,13 +753,13 @@ impl Harness for C10 {
             jobs,
             budget_s: if t { 2700 } else { 40 },
             case_deadline_ms: 20_000,
-            floors: vec![("builder_chains", 5), ("entry_cases", 1000), ("svc_fits", 100_000), ("svc_non_identity_orders", 100_000), ("svc_clipped_at_C", 1000), ("svr_fits", 10_000), ("svr_at_C", 100), ("svr_zero_weight_rows", 100), ("kernel_pairs", 5000), ("kernel_pairs_off_centre", 4000), ("kernel_pairs_f32", 2500), ("gram_matrices", 1000), ("gram_matrices_off_centre", 800)],
+            floors: vec![("builder_chains", 5), ("entry_cases", 1000), ("svc_fits", 100_000), ("svc_non_identity_orders", 100_000), ("svc_clipped_at_C", 1000), ("svr_fits", 10_000), ("svr_at_C", 100), ("svr_zero_weight_rows", 100), ("kernel_pairs", 5000), ("kernel_pairs_off_centre", 4000), ("kernel_pairs_f32", 2500), ("kernel_pairs_mirrored", 5000), ("svr_neardup_rounded_curvature_negative", 30), ("gram_matrices", 1000), ("gram_matrices_off_centre", 800)],
             bounds: json!({
                 "builders": mc_sc::builders::BOUNDS,
                 "entry_paths": mc_sc::entry::BOUNDS,
                 "svc_all_orders": "every x sequence over {0,1,2}^4 x every labelling with both classes x 4 kernels x (C,tol,encoding) settings x ALL (4!)^2 visiting orders (epoch 1); 2-D: every 4-subset of the 3x2 lattice; epoch 2 ((4!)^3 orders) on one sequence family (all in thorough); n=5 with all (5!)^2 orders for the linear and RBF kernels in thorough",
                 "svc_deviation_bounded": "n=6..8 fixed point sets, epochs 1,2(,4): every schedule with at most 1 (2 thorough) non-identity Fisher-Yates steps",
-                "svr_stiff": "linear-kernel SVR on deterministic integer designs with feature magnitudes up to 20 (C=10) and 100 (C=1), n in {20,30} (40 thorough): problems on which SMO needs 1e5..1e6 steps", "svr": "every x sequence over {0,1,2}^n, y over {-1,0,2}^n, n<=4 (5 thorough) x eps {0,.1,.5} x C {.1,1,100} x tol {1e-2,1e-3,1e-4} x {linear,rbf,poly}; structured sets n in {8,20,72} (also 40,80 thorough)",
+                "svr_near_duplicates": "an 8-row set at magnitudes of hundreds in which one row has a NEAR-duplicate (every row x coordinate x relative distance 2^-28..2^-35 x 2 factors) carrying a different target, linear and polynomial kernels, C in {1,10}: termination and KKT; the rounded pair curvature is negative in a counted share of them", "svr_stiff": "linear-kernel SVR on deterministic integer designs with feature magnitudes up to 20 (C=10) and 100 (C=1), n in {20,30} (40 thorough): problems on which SMO needs 1e5..1e6 steps", "svr": "every x sequence over {0,1,2}^n, y over {-1,0,2}^n, n<=4 (5 thorough) x eps {0,.1,.5} x C {.1,1,100} x tol {1e-2,1e-3,1e-4} x {linear,rbf,poly}; structured sets n in {8,20,72} (also 40,80 thorough)",
                 "kernels": "every vector pair of length <=2 over {0,±1,±2} and length 3 over {0,±1} (all in thorough), each at 6 placements (offset, spacing) in {(0,1),(25,1),(30,1/32),(1000,1),(1000,1/32),(2^20,1)} and in f64 and f32, (5 built-in kernels incl. polynomial degrees 2, 3, 2.5 and 0.5) against the closed form with a rounding allowance of 4+(len+2)*cond ulps of the number type, exact symmetry, RBF in [0,1]; Gram matrices (linear, RBF) of every point sequence n<=4 at the same placements and widths: PSD, RBF diagonal exactly 1",
             }),
         }
